@@ -366,6 +366,75 @@ func (e *Env) serve() {
 	}()
 }
 
+// advListener hands out connections on which a Write call that does not carry whole messages is held before it
+// returns until another goroutine has started a Write on the same connection (or 1.5 s have passed). Write calls of
+// different goroutines on one connection are ordered arbitrarily by the runtime, so this is a legal schedule; it
+// makes "a message is put on the wire by more than one Write" observable as interleaved bytes at the remote. A
+// writer that always passes whole messages to Write is never delayed.
+type advListener struct {
+	net.Listener
+	tr *Trace
+}
+
+func (l advListener) Accept() (net.Conn, error) {
+	c, err := l.Listener.Accept()
+	if err != nil {
+		return nil, err
+	}
+	return &advConn{Conn: c, tr: l.tr, wake: make(chan struct{}, 1)}, nil
+}
+
+type advConn struct {
+	net.Conn
+	tr   *Trace
+	mu   sync.Mutex
+	buf  []byte
+	wake chan struct{}
+}
+
+func (c *advConn) Write(b []byte) (int, error) {
+	select {
+	case c.wake <- struct{}{}:
+	default:
+	}
+	n, err := c.Conn.Write(b)
+	c.mu.Lock()
+	c.buf = append(c.buf, b[:n]...)
+	_, rest := wire.Split(c.buf)
+	c.buf = append([]byte(nil), rest...)
+	partial := len(rest) > 0
+	c.mu.Unlock()
+	if partial && err == nil {
+		c.tr.log("-", "adv.partial", strconv.Itoa(len(b)))
+		select {
+		case <-c.wake: // our own signal
+		default:
+		}
+		select {
+		case <-c.wake:
+		case <-time.After(1500 * time.Millisecond):
+		}
+	}
+	return n, err
+}
+
+// serveAdversary is serve with the write-interleaving adversary on every accepted connection
+func (e *Env) serveAdversary() {
+	var err error
+	e.lis, err = net.Listen("tcp", "127.0.0.1:0")
+	if err != nil {
+		panic(err)
+	}
+	e.lisAddr = e.lis.Addr().String()
+	e.serveCh = make(chan error, 1)
+	e.tr.log("-", "api.call", "Serve")
+	go func() {
+		err := e.srv.Serve([]net.Listener{advListener{e.lis, e.tr}})
+		e.tr.log("-", "api.ret", "Serve", errName(err))
+		e.serveCh <- err
+	}()
+}
+
 // serveWildcard listens on all addresses (for the admission scenarios)
 func (e *Env) serveOn(addr string) {
 	var err error
